@@ -83,7 +83,8 @@ theorem procPair_amb (s : PState) (p : Pair) (k1 k2 : Str) (ks : List Str)
   unfold procPair; simp only [hr]
 
 /-- the state right after an option was matched under `key` and its attached arguments were saved -/
-def matched (s : PState) (oid : Nat) (key : Str) : Opt := { s.P.opt oid with called := true, usedAlias := key }
+def matched (s : PState) (oid : Nat) (key : Str) : Opt :=
+  { s.P.opt oid with called := true, usedAlias := key, lowerKeys := (s.P.node 0).mapKeysToLower }
 
 theorem procPair_known (s : PState) (p : Pair) (key : Str) (oid : Nat)
     (hr : resolve (s.P.node s.cur) p.opt = [key]) (hl : lookup key (s.P.node s.cur).opts = some oid) :
